@@ -431,6 +431,18 @@ func runMsgTree(r *hx.R, n int, w *hx.W, _ []string) error {
 			}
 			w.Count("tx:" + cls)
 			obs := "fail"
+			// where the tx failed, as far as the error text tells: refused by one of the two Ethereum guards (the first decorators of
+			// the non-EVM chain), or during message execution (after the whole ante chain accepted it), or elsewhere (basic
+			// validation before the ante chain, another decorator). The model must agree on the guard verdict.
+			if cls == "fail" {
+				switch {
+				case strings.Contains(res.Log, "needs to be contained within a tx with 'ExtensionOptionsEthereumTx'") ||
+					strings.Contains(res.Log, "authz grant generic for msg type"):
+					cls, obs = "failguard", "fail:ethguard"
+				case strings.Contains(res.Log, "failed to execute message"):
+					cls, obs = "failexec", "fail:exec"
+				}
+			}
 			if cls == "ok" {
 				obs = fmt.Sprintf("ok eth=%d %s", ethRan, msgtreeState(a, chain.Ctx(), acctAddr, kindURL))
 			}
